@@ -1,9 +1,11 @@
 import BddVerif.Props.C07
 import BddVerif.Lemmas.C02HistorySubst
 import BddVerif.Lemmas.AlgoEq2RenDriver
+import BddVerif.Lemmas.SubstituteCanonical
 #print axioms B.Props.C07.substitute_spec
 #print axioms B.Props.C07.substitute_safe_canonical
 #print axioms B.C02H.substitute_canonical
 #print axioms B.AlgoEq2Ren.Bdd_substitute_eq_model
 #print axioms B.AlgoEq2Ren.Bdd_substitute_spec
 #print axioms B.AlgoEq2Ren.substitute_absent
+#print axioms B.Ren.Subst.substitute_eq_canon
